@@ -337,4 +337,72 @@ theorem step_get {bs : List Block} {vs : Vars} (x : String) (i : Int) (hi : InvP
   simp only [step, lookup_eq hi.nodup hmx, hb, if_false, hr, bind, Except.bind, pure, Except.pure,
     List.getElem?_eq_getElem hlt]
 
+/-! ### tuple swap of two declared lists: the environment is the old one up to the renaming `x ↔ y` -/
+
+/-- the name under which an entry of the swapped environment was bound before the swap -/
+def swapName (x y n : String) : String := if n = x then y else if n = y then x else n
+
+theorem swapName_invol (x y n : String) : swapName x y (swapName x y n) = n := by
+  unfold swapName
+  by_cases h1 : n = x
+  · by_cases h2 : y = x <;> simp [h1, h2]
+  · by_cases h2 : n = y
+    · simp [h2]
+    · simp [h1, h2]
+
+theorem swapName_inj {x y n m : String} (h : swapName x y n = swapName x y m) : n = m := by
+  rw [← swapName_invol x y n, h, swapName_invol]
+
+theorem inv_swap {bs : List Block} {vs : Vars} {x y : String} {lx ly : LVal} (hi : InvP bs vs)
+    (hmx : (x, lx) ∈ vs) (hmy : (y, ly) ∈ vs) (hxy : x ≠ y) :
+    InvP bs ((y, lx) :: (x, ly) :: (vs.filter (·.1 ≠ x)).filter (·.1 ≠ y)) := by
+  have hnd1 : ((vs.filter (·.1 ≠ x)).map (·.1)).Nodup :=
+    hi.nodup.sublist (List.Sublist.map _ List.filter_sublist)
+  have hnd2 : (((vs.filter (·.1 ≠ x)).filter (·.1 ≠ y)).map (·.1)).Nodup :=
+    hnd1.sublist (List.Sublist.map _ List.filter_sublist)
+  have orig : ∀ n l, (n, l) ∈ ((y, lx) :: (x, ly) :: (vs.filter (·.1 ≠ x)).filter (·.1 ≠ y)) →
+      (swapName x y n, l) ∈ vs := by
+    intro n l h
+    rcases List.mem_cons.1 h with h | h
+    · cases h; simpa [swapName, Ne.symm hxy] using hmx
+    rcases List.mem_cons.1 h with h | h
+    · cases h; simpa [swapName] using hmy
+    · obtain ⟨h1, hny⟩ := mem_of_mem_filter h
+      obtain ⟨h2, hnx⟩ := mem_of_mem_filter h1
+      simp only at hnx hny
+      simpa [swapName, hnx, hny] using h2
+  refine ⟨?_, ?_, ?_, ?_⟩
+  · simp only [List.map_cons, List.nodup_cons, List.mem_cons, not_or]
+    refine ⟨⟨Ne.symm hxy, not_mem_filter_ne _ y⟩, ?_, hnd2⟩
+    intro h
+    exact not_mem_filter_ne vs x ((List.Sublist.map _ List.filter_sublist).subset h)
+  · intro n l h; exact hi.wf _ l (orig n l h)
+  · intro n m ln lm id hn hm hdn hdm
+    exact swapName_inj (hi.nosh _ _ ln lm id (orig _ _ hn) (orig _ _ hm) hdn hdm)
+  · have h1 := cnt_filter_ne hi.nodup hmx
+    have hmy1 : (y, ly) ∈ vs.filter (·.1 ≠ x) := List.mem_filter.2 ⟨hmy, by simpa using Ne.symm hxy⟩
+    have h2 := cnt_filter_ne hnd1 hmy1
+    rw [cnt_cons, cnt_cons, hi.live]
+    omega
+
+/-- the swap never errs, keeps the invariant, touches no block, and exchanges the two values -/
+theorem step_swap {bs : List Block} {vs : Vars} (x y : String) (hi : InvP bs vs)
+    (hx : x ∈ vs.map (·.1)) (hy : y ∈ vs.map (·.1)) :
+    ∃ o, step ⟨bs, vs⟩ (.swap x y) = .ok o ∧ InvH o.heap ∧ o.heap.blocks = bs ∧ o.value = none ∧
+      lookup o.heap x = lookup ⟨bs, vs⟩ y ∧ lookup o.heap y = lookup ⟨bs, vs⟩ x := by
+  by_cases hxy : x = y
+  · exact ⟨⟨⟨bs, vs⟩, none⟩, by simp [step, hxy], hi, rfl, rfl, by rw [hxy], by rw [hxy]⟩
+  · obtain ⟨lx, hmx⟩ := exists_of_declared hx
+    obtain ⟨ly, hmy⟩ := exists_of_declared hy
+    have hyx : ¬ (y = x) := fun h => hxy h.symm
+    have hb : (x == y) = false := by simpa using hxy
+    refine ⟨⟨⟨bs, (y, lx) :: (x, ly) :: (vs.filter (fun p => p.1 ≠ x)).filter (fun p => p.1 ≠ y)⟩, none⟩, ?_,
+      (by exact inv_swap hi hmx hmy hxy), rfl, rfl, ?_, ?_⟩
+    · simp only [step, hxy, if_false, lookup_eq hi.nodup hmx, lookup_eq hi.nodup hmy, setVar]
+      rw [List.filter_cons_of_pos (by simpa using hxy)]
+    · rw [lookup_eq hi.nodup hmy]
+      simp [lookup, List.lookup, hb]
+    · rw [lookup_eq hi.nodup hmx]
+      simp [lookup, List.lookup]
+
 end Reduino.Lemmas.C09
